@@ -74,6 +74,11 @@ public:
                 "Malformed PUBLISH received: QoS bits set to 0b11"
             );
 
+        if (qos_bits == 0 && (flags & 0b1000))
+            return on_malformed_packet(
+                "Malformed PUBLISH received: DUP set with QoS 0"
+            );
+
         auto qos = qos_e(qos_bits);
         _message = std::move(message);
 
